@@ -30,7 +30,10 @@ import monitors as M
 
 # ------------------------------------------------------------------------------------------- config
 MODULE_OF_OP = {"adsr.new": "adsr", "lfo.new": "lfo", "quant.new": "quant", "midi.new": "midi", "glide.new": "glide",
-                "ribbon.new": "ribbon", "ribbon.cap": "ribbon"}
+                "ribbon.new": "ribbon", "ribbon.cap": "ribbon", "prim.new": "prim", "pa.new": "pa"}
+# scripts over the crate-private building blocks (utils, lookup tables, the phase accumulator on its own, reached
+# through the verif_hooks re-export): correspondence only, the property monitors are about the public types
+PRIM_MODULES = ("prim", "pa")
 
 
 def script_module(s):
@@ -93,9 +96,11 @@ def proj(pid, module, op, line):
 def scripts_for(pid, rng, tier):
     k = 1 if tier == "quick" else 12
     if pid in ("C01", "C03"):
-        return G.adsr_scripts(rng, 25 * k, 14 * k, 8 * k)
+        return G.adsr_scripts(rng, 25 * k, 14 * k, 8 * k) + \
+            G.prim_scripts(rng, 6 * k, 6 * k, tables=("attack", "decay"), kinds=[(24, 10)])
     if pid == "C02":
-        return G.adsr_scripts(rng, 20 * k, 24 * k, 4 * k)
+        return G.adsr_scripts(rng, 20 * k, 24 * k, 4 * k) + \
+            G.prim_scripts(rng, 0, 12 * k, kinds=[(24, 10), (24, 8), (20, 10)], full_tables=False)
     if pid in ("C04", "C05"):
         return G.midi_scripts(rng, 250 * k, 40 * k)
     if pid == "C06":
@@ -106,10 +111,13 @@ def scripts_for(pid, rng, tier):
         return G.quant_scripts(rng, 150 * k, 10 * k, 40 * k)
     if pid == "C08":
         return G.quant_scripts(rng, 20 * k, 120 * k, 5 * k)
-    if pid in ("C10", "C11", "C12"):
-        return G.lfo_scripts(rng, 40 * k, 60 * k, 10 * k)
+    if pid in ("C10", "C12"):
+        return G.lfo_scripts(rng, 40 * k, 60 * k, 10 * k) + \
+            G.prim_scripts(rng, 6 * k, 8 * k, tables=("sine",), kinds=[(24, 10)])
+    if pid == "C11":
+        return G.lfo_scripts(rng, 40 * k, 60 * k, 10 * k) + G.prim_scripts(rng, 0, 16 * k, full_tables=False)
     if pid in ("C13", "C14"):
-        return G.glide_scripts(rng, 60 * k, 14 * k, 10 * k)
+        return G.glide_scripts(rng, 60 * k, 14 * k, 10 * k) + G.prim_scripts(rng, 8 * k, 0, full_tables=False)
     if pid in ("C15", "C16"):
         return G.ribbon_scripts(rng, 60 * k, big=(tier != "quick"))
     if pid == "C17":
@@ -215,6 +223,8 @@ def compare(pid, scripts, impl, model):
 def monitor_all(pid, scripts, impl):
     fails = []
     for s in scripts:
+        if script_module(s) in PRIM_MODULES:
+            continue
         outs = impl.get(s.sid, [])
         for mon in M.MONITORS[pid]:
             for (i, msg) in mon(s, outs):
